@@ -14,6 +14,15 @@ fn prop_num(id: &str) -> u32 {
 
 fn main() {
   let args: Vec<String> = std::env::args().collect();
+  if args.len() >= 6 && args[1] == "c16-worker" {
+    install_quiet_panic_hook();
+    let code = tmverif::props_c16::worker_main(args[2].parse().unwrap_or(0), args[3].parse().unwrap_or(1), args[4].parse().unwrap_or(1), args[5] == "quick", args.get(6).cloned());
+    std::process::exit(code);
+  }
+  if args.len() >= 3 && args[1] == "c16-replay-worker" {
+    install_quiet_panic_hook();
+    std::process::exit(tmverif::props_c16::replay_worker(&args[2], args.get(3).cloned()));
+  }
   if args.len() < 4 {
     usage();
   }
@@ -40,6 +49,7 @@ fn main() {
         13 => tmverif::props_c13::check(&cfg, &findings),
         14 => tmverif::props_c14::check(&cfg, &findings),
         15 => tmverif::props_c15::check(&cfg, &findings),
+        16 => tmverif::props_c16::check(&cfg, &findings),
         17 => tmverif::props_c17::check(&cfg, &findings),
         18 => tmverif::props_c18::check(&cfg, &findings),
         _ => {
@@ -59,6 +69,7 @@ fn main() {
         13 => tmverif::props_c13::replay(file),
         14 => tmverif::props_c14::replay(file),
         15 => tmverif::props_c15::replay(file),
+        16 => tmverif::props_c16::replay(file),
         17 => tmverif::props_c17::replay(file),
         18 => tmverif::props_c18::replay(file),
         _ => {
